@@ -44,6 +44,7 @@ TLearn ==
            exp'[Ev.a] = "lerp" => \A t \in 1..Len(Ev.cls) : Ev.cls[t] \in {"lerp", "same"})
   /\ Check("Delayed: between policy steps the target networks keep their weights",
            exp'[Ev.a] = "noop" => \A t \in 1..Len(Ev.cls) : Ev.cls[t] \in {"noop", "same"})
+  /\ Check("LossOnly: the step is the one an exact copy of the learner with cleared gradient buffers takes on the same batch", Ev.fresh_same)
   /\ Adv
 
 TAccept == /\ l = Len(T.ev) + 1 /\ PrintT(<<"ACCEPT", tid>>) /\ l' = l + 1 /\ UNCHANGED <<vars, tid>>
